@@ -23,6 +23,11 @@ int main(void) {
   sdk_flash_log = 1;
   memset(sdk_flash, 0xff, sizeof(sdk_flash));
   while (ops_next()) {
+    if (!strcmp(ops_tok[0], "slotfnv") && ops_ntok == 3) {
+      size_t a = strtoul(ops_tok[1], 0, 10), n = strtoul(ops_tok[2], 0, 10);
+      if (a + n <= sizeof(sdk_flash)) sdk_out("SLOTFNV %08x", fnv(&sdk_flash[a], n)); else sdk_out("BADOP");
+      ops_done(); continue;
+    }
     if (sdk_dead) { sdk_out("DEAD"); ops_done(); continue; }
     if (setjmp(sdk_restart_jmp) == 0) {
       const char *op = ops_tok[0];
